@@ -117,14 +117,14 @@ package revision
 //@   assert [C16:real-update-is-not-dry-run] len($opts) == 0
 
 //@ func (*revision.APIEstablisher).update
-//@ props C16
+//@ props C16 C02
 //@ ghost controllerAdded bool = false
 //@ optional site meta.AddControllerReference($o, _)
 //@   assert [C16:only-a-controlling-revision-takes-control] control && $o == desired
 //@   update controllerAdded = err == nil
 //@ site (client.Writer).Update(_, _, $o, $uo...)
-//@   assert [C16:inactive-revision-writes-the-existing-object] !control ==> ($o == current && !controllerAdded)
-//@   assert [C16:active-revision-writes-the-controlled-desired-object] control ==> ($o == desired && controllerAdded && desired.GetResourceVersion() == current.GetResourceVersion())
+//@   assert [C16,C02:inactive-revision-writes-the-existing-object] !control ==> ($o == current && !controllerAdded)
+//@   assert [C16,C02:active-revision-writes-the-controlled-desired-object] control ==> ($o == desired && controllerAdded && desired.GetResourceVersion() == current.GetResourceVersion())
 //@   assert [C16:dry-run-option-forwarded] $uo == opts
 
 //@ func (*revision.APIEstablisher).create
